@@ -217,10 +217,18 @@ _self_test_compiler()
 # ---------------------------------------------------------------------------
 
 _HOLD: dict = {"debug": False}
+
+
+class _Fake:
+    """Base of every fake: anything outside the modelled surface is a harness-model error, never a verdict."""
+
+    def __getattr__(self, name: str) -> object:
+        raise HarnessModelError(f"{type(self).__name__} fake used through .{name}, which it does not model")
+
 _REAL_ACCESS_LOGGER = logging.getLogger("vgi_rpc.access")
 
 
-class _StubAccessLogger:
+class _StubAccessLogger(_Fake):
     """INFO enabled, DEBUG = _HOLD['debug']; info() builds the record with the real Logger.makeRecord."""
 
     def __init__(self) -> None:
@@ -267,18 +275,18 @@ _SID = "0123456789abcdef0123456789abcdef"
 _HASH = "ab" * 32
 
 
-class _Ctx:
+class _Ctx(_Fake):
     pass
 
 
-class _Req:
+class _Req(_Fake):
     def __init__(self, content_length: int | None) -> None:
         self.context = _Ctx()
         self.content_length = content_length
         self.method = "POST"
 
 
-class _Resp:
+class _Resp(_Fake):
     def __init__(self) -> None:
         self.data = b"RESPONSE-BODY"
         self.text = None
@@ -324,26 +332,59 @@ import pyarrow as _pa
 from dataclasses import dataclass as _dataclass
 from typing import Protocol as _Protocol
 
-from vgi_rpc.rpc import CallContext, OutputCollector, ProducerState, Stream
+from vgi_rpc.rpc import AnnotatedBatch, CallContext, ExchangeState, OutputCollector, ProducerState, Stream
 
 _REPLAY_SCHEMA = _pa.schema([_pa.field("i", _pa.int64())])
+# what the replay service raises: kept out of the stream state (the state is serialised into the HTTP state token, and
+# the exception text under test must not have to survive that trip for the replay to mean anything)
+_REPLAY_EXC: dict = {"etype": "", "msg": ""}
+_REAL_INFO: dict = {"posts": None}  # dispatched HTTP requests of the last _real_run (None on the pipe transport)
+
+
+def _exc_class(etype: object) -> type:
+    """The exception class a real method raises in a replay: ValueError, or a ValueError subclass whose __name__ is the
+    counterexample's error type (what `type(exc).__name__` — the record's error_type — is computed from)."""
+    if not isinstance(etype, str) or etype == "ValueError" or not etype.isidentifier():
+        return ValueError  # only a name a real class can carry is passed through
+    try:
+        return type(etype, (ValueError,), {})
+    except Exception:  # noqa: BLE001  (a name no class can carry, e.g. one with a NUL: replayed with the plain class)
+        return ValueError
+
+
+def _raise(etype: object, msg: str) -> None:
+    cls = _exc_class(etype)
+    raise cls(msg) if msg != "" else cls()
 
 
 @_dataclass
 class _GenState(ProducerState):
     """Replay service: producer emitting 4 batches, or failing on its third batch (a continuation request under the small HTTP response cap)."""
 
-    msg: str = ""
     fail: bool = False
     n: int = 0
 
     def produce(self, out: OutputCollector, ctx: CallContext) -> None:
         if self.fail and self.n >= 2:
-            raise ValueError(self.msg) if self.msg != "" else ValueError()
+            _raise(_REPLAY_EXC["etype"], _REPLAY_EXC["msg"])
         out.emit_pydict({"i": [self.n]})
         self.n += 1
         if self.n >= 4:
             out.finish()
+
+
+@_dataclass
+class _XchState(ExchangeState):
+    """Replay service: exchange stream echoing its input, or failing on its second exchange."""
+
+    fail: bool = False
+    n: int = 0
+
+    def exchange(self, input: AnnotatedBatch, out: OutputCollector, ctx: CallContext) -> None:
+        if self.fail and self.n >= 1:
+            _raise(_REPLAY_EXC["etype"], _REPLAY_EXC["msg"])
+        self.n += 1
+        out.emit_pydict({"i": [self.n]})
 
 
 class _ReplayProtocol(_Protocol):
@@ -351,23 +392,35 @@ class _ReplayProtocol(_Protocol):
 
     def gen(self, n: int) -> Stream[_GenState]: ...
 
+    def xch(self, n: int) -> Stream[_XchState]: ...
+
 
 class _ReplayImpl:
-    def __init__(self, fail: bool, msg: str, bad_result: object) -> None:
-        self.fail, self.msg, self.bad_result = fail, msg, bad_result
+    def __init__(self, fail: bool, msg: str, bad_result: object, etype: object = None, init_fails: bool = False) -> None:
+        self.fail, self.msg, self.bad_result, self.init_fails = fail, msg, bad_result, init_fails
+        self.etype = etype if isinstance(etype, str) and etype.isidentifier() else ""
+        _REPLAY_EXC["etype"], _REPLAY_EXC["msg"] = self.etype, msg
 
     def boom(self, n: int) -> int:
         if self.fail:
-            raise ValueError(self.msg) if self.msg != "" else ValueError()
+            _raise(self.etype, self.msg)
         if self.bad_result == "NONE":
             return None  # type: ignore[return-value]
         return "BAD" if self.bad_result else n  # type: ignore[return-value]
 
     def gen(self, n: int) -> Stream[_GenState]:
-        return Stream(output_schema=_REPLAY_SCHEMA, state=_GenState(msg=self.msg, fail=self.fail))
+        if self.init_fails:
+            _raise(self.etype, self.msg)
+        return Stream(output_schema=_REPLAY_SCHEMA, state=_GenState(fail=self.fail))
+
+    def xch(self, n: int) -> Stream[_XchState]:
+        if self.init_fails:
+            _raise(self.etype, self.msg)
+        return Stream(output_schema=_REPLAY_SCHEMA, state=_XchState(fail=self.fail), input_schema=_REPLAY_SCHEMA)
 
 
-def _real_run(transport: str, debug: bool, kind: str, fail: bool, msg: str, cancel: bool = False, bad_result: object = False, cache_miss: bool = False) -> tuple[list, str]:
+def _real_run(transport: str, debug: bool, kind: str, fail: bool, msg: str, cancel: bool = False, bad_result: object = False, cache_miss: bool = False,
+              etype: object = None, init_fails: bool = False, producer: bool = True, token_ttl: int | None = None) -> tuple[list, str]:  # fmt: skip
     """Un-stubbed public API: a real RpcServer served over an in-memory pipe or the real HTTP app (falcon test client),
     real logging with the real VgiAccessLogFormatter.  Returns (parsed vgi_rpc.access records of the call, what the client saw)."""
     import warnings
@@ -377,7 +430,9 @@ def _real_run(transport: str, debug: bool, kind: str, fail: bool, msg: str, canc
     P = _ReplayProtocol
 
     def Impl() -> _ReplayImpl:  # noqa: N802
-        return _ReplayImpl(fail, msg, bad_result)
+        return _ReplayImpl(fail, msg, bad_result, etype, init_fails)
+
+    _REAL_INFO["posts"] = None
 
     lines: list[str] = []
 
@@ -391,6 +446,18 @@ def _real_run(transport: str, debug: bool, kind: str, fail: bool, msg: str, canc
         try:
             if kind == "unary":
                 proxy.boom(n=1)  # type: ignore[attr-defined]
+            elif not producer:
+                session = proxy.xch(n=1)  # type: ignore[attr-defined]
+                one = AnnotatedBatch(batch=_pa.RecordBatch.from_pydict({"i": [1]}, schema=_REPLAY_SCHEMA))
+                try:
+                    session.exchange(one)
+                    if cancel:
+                        session.cancel()
+                    else:
+                        session.exchange(one)
+                finally:
+                    if not cancel:
+                        session.close()
             else:
                 session = proxy.gen(n=1)  # type: ignore[attr-defined]
                 it = iter(session)
@@ -422,22 +489,36 @@ def _real_run(transport: str, debug: bool, kind: str, fail: bool, msg: str, canc
                 from vgi_rpc.http._testing import make_sync_client
 
                 extra: dict = {}
-                if kind == "stream":
+                if kind == "stream" and producer:
                     extra["max_response_bytes"] = 300  # forces the producer into /exchange continuations
                 if cache_miss:
                     extra["call_state_cache_entries"] = 0  # every continuation is rebuilt from the echoed call token
+                if token_ttl is not None:
+                    extra["token_ttl"] = token_ttl
                 client = make_sync_client(RpcServer(P, Impl()), token_key=b"k" * 32, **extra)
+                posts: list = []
+                inner = client._client  # the falcon TestClient under the shim: count the POSTs that reach the app
+                real_post = inner.simulate_post
+
+                def counting_post(path: str = "/", *a: object, **kw: object) -> object:
+                    tail = str(path).rstrip("/").rsplit("/", 2)[-2:]
+                    if tail[-1] in ("boom", "init", "exchange") and (tail[-1] == "boom" or tail[0] in ("gen", "xch")):
+                        posts.append(tail)
+                    return real_post(path, *a, **kw)
+
+                inner.simulate_post = counting_post  # type: ignore[method-assign]
                 with http_connect(P, client=client) as proxy:
                     drive(proxy)
+                _REAL_INFO["posts"] = len(posts)
     finally:
         lg.removeHandler(h)
         lg.setLevel(old_level)
         logging.disable(old_disable)
     recs = [json.loads(x) for x in lines]
-    return [r for r in recs if r.get("method") in ("boom", "gen")], seen[0]
+    return [r for r in recs if r.get("method") in ("boom", "gen", "xch")], seen[0]
 
 
-def _judge_real(transport: str, kind: str, fail: bool, msg: str, cancel: bool, recs: list, seen: str, note: str = "") -> str | None:
+def _judge_real(transport: str, kind: str, fail: bool, msg: str, cancel: bool, recs: list, seen: str, note: str = "", etype: object = None) -> str | None:
     """The property, on real records: one record per dispatched call, schema-valid, status = client outcome, one stream id."""
     import jsonschema
 
@@ -447,6 +528,10 @@ def _judge_real(transport: str, kind: str, fail: bool, msg: str, cancel: bool, r
         return f"{what}: no vgi_rpc.access record at all"
     if (kind == "unary" or transport == "pipe") and len(recs) != 1:
         return f"{what}: {len(recs)} vgi_rpc.access records instead of exactly one"
+    posts = _REAL_INFO.get("posts")
+    if transport == "http" and posts is not None and len(recs) != posts:
+        # every dispatched request (init, each continuation / exchange turn, the cancel) yields exactly one record
+        return f"{what}: {len(recs)} vgi_rpc.access records for {posts} dispatched HTTP requests (exactly one per request)"
     for r in recs:
         errs = [e.message for e in validator.iter_errors(r)]
         if errs:
@@ -460,6 +545,9 @@ def _judge_real(transport: str, kind: str, fail: bool, msg: str, cancel: bool, r
         return f"{what}: the record of the cancel does not carry cancelled=true"
     if fail and msg and last.get("error_message") != msg:
         return f"{what}: error_message {str(last.get('error_message'))[:40]!r} ({len(last.get('error_message') or '')} chars) != exception text ({len(msg)} chars)"
+    if fail and last.get("error_type") != _exc_class(etype).__name__:
+        # access-log-spec: error_type is the "Python-style exception class name on error"
+        return f"{what}: error_type {last.get('error_type')!r} is not the raised exception's class name {_exc_class(etype).__name__!r}"
     return None
 
 
@@ -469,8 +557,9 @@ def _replay_error_record(args: dict) -> str | None:
     kind = "stream" if args.get("stream") else "unary"
     fail = bool(args.get("is_err"))
     cancel = bool(args.get("cancelled")) and kind == "stream" and not fail
-    recs, seen = _real_run(transport, False, kind, fail, msg, cancel)
-    return _judge_real(transport, kind, fail, msg, cancel, recs, seen)
+    etype = args.get("etype") if fail else None
+    recs, seen = _real_run(transport, False, kind, fail, msg, cancel, etype=etype)
+    return _judge_real(transport, kind, fail, msg, cancel, recs, seen, etype=etype)
 
 
 def _replay_envelope(args: dict) -> str | None:
@@ -481,7 +570,20 @@ def _replay_envelope(args: dict) -> str | None:
 
 
 def _sig_error(args: dict, conc: object) -> str:
-    return SIG_EMPTY if args.get("is_err") and args.get("msg", "") == "" else "C34:error-fields-schema-invalid"
+    """SIG_EMPTY only when that is what failed: an error record whose error_message is missing or empty."""
+    if args.get("is_err") and args.get("msg", "") == "":
+        try:
+            exc = ValueError()
+            em = srv._truncate_error_message(exc) if args.get("via_truncate") else str(exc)
+            payloads = _emit_and_collect(
+                via_sink=bool(args.get("via_sink")), stream=bool(args.get("stream")), has_sid=bool(args.get("has_sid")), has_request=not args.get("stream"),
+                status="error", error_type=args.get("etype", ""), error_message=em, cancelled=bool(args.get("cancelled")),
+            )  # fmt: skip
+            if len(payloads) == 1 and not payloads[0].get("error_message"):
+                return SIG_EMPTY
+        except Exception:  # noqa: BLE001
+            pass
+    return "C34:error-fields-schema-invalid"
 
 
 # ---------------------------------------------------------------------------
@@ -511,8 +613,6 @@ def _check_error_fields(is_err: bool, etype: str, msg: str, via_truncate: bool, 
         return False
     if is_err and msg != "" and p.get("error_message") != msg:
         return False  # the full server-side message
-    if not is_err and p.get("error_message", "") != "":
-        return False
     if cancelled != (p.get("cancelled") is True):
         return False
     if has_sid != (p.get("stream_id") == _SID):
@@ -592,12 +692,12 @@ def envelope_fields_schema_valid(debug: bool, stream: bool, has_request: bool, w
         return False
     if via_sink and p.get("response_bytes") != len(b"RESPONSE-BODY"):
         return False
-    if via_sink and p.get("request_bytes") != (content_length if has_len else 0):
-        return False
+    if via_sink and has_len and p.get("request_bytes") != content_length:
+        return False  # spec: on-wire size of the request body as received (without a Content-Length the fake has no size)
     if debug and has_request and "request_data" not in p:
         return False
-    if (debug and has_state) != ("request_state" in p and "response_state" in p):
-        return False
+    if debug and has_state and not ("request_state" in p and "response_state" in p):
+        return False  # what the shell reported is logged (whether INFO sheds the tokens is the emitter's own policy)
     return True
 
 
@@ -649,7 +749,7 @@ _WIRE: dict = {"error_batches": [], "result_batches": []}
 SIG_RESP = "C34:unary-status-ok-but-response-failed"
 
 
-class _NullWriter:
+class _NullWriter(_Fake):
     def __enter__(self) -> "_NullWriter":
         return self
 
@@ -697,28 +797,28 @@ _serve_unary = reglobalize(
 )
 
 
-class _MethodType:
+class _MethodType(_Fake):
     value = "unary"
 
 
-class _Info:
+class _Info(_Fake):
     name = "meth"
     method_type = _MethodType()
     result_schema = None
     result_type = int  # the real _validate_result refuses None for it
 
 
-class _FakeSink:
+class _FakeSink(_Fake):
     def flush_contents(self, writer: object, schema: object) -> None:
         return None
 
 
-class _FakeTransport:
+class _FakeTransport(_Fake):
     writer = None
     reader = None
 
 
-class _FakeServer:
+class _FakeServer(_Fake):
     _describe_batch = None
     _describe_metadata = None
     _dispatch_hook = None
@@ -843,7 +943,7 @@ class _HistClock:
         raise HarnessModelError(f"time.{name} not modelled")
 
 
-class _OpaqueCallToken:
+class _OpaqueCallToken(_Fake):
     """Ideal AEAD box for the call token: remembers exactly what _mint_call_token was asked to seal."""
 
     def __init__(self, call_state: object, output_schema: object, input_schema: object, auth: object, stream_id: str, method_name: object, created_at: int) -> None:
@@ -851,7 +951,7 @@ class _OpaqueCallToken:
         self.auth, self.stream_id, self.method_name, self.created_at = auth, stream_id, method_name, created_at
 
 
-class _OpaqueCursor:
+class _OpaqueCursor(_Fake):
     """Ideal AEAD box for the cursor token: state bytes + the authenticated call id."""
 
     def __init__(self, state_bytes: bytes, call_id: bytes) -> None:
@@ -877,7 +977,7 @@ def _stub_resolve_call_from_token(app, call_token, expected_call_id, state_info,
     return stok._ResolvedCall(call_token.call_state, call_token.output_schema, call_token.input_schema, call_token.stream_id, call_token.created_at)
 
 
-class _HistState:
+class _HistState(_Fake):
     def bind_call_state(self, call_state: object) -> None:
         return None
 
@@ -913,12 +1013,12 @@ def _stub_init_tail(app, **kw):  # noqa: ANN001
     return _BytesIO(b"")
 
 
-class _HistSink:
+class _HistSink(_Fake):
     def __init__(self, server_id: str = "") -> None:
         self.server_id = server_id
 
 
-class _HistReader:
+class _HistReader(_Fake):
     def __init__(self, request: "_HistRequest", validation: object = None) -> None:
         self._request = request
 
@@ -932,7 +1032,7 @@ class _HistIpc:
         return stream
 
 
-class _HistRequest:
+class _HistRequest(_Fake):
     def __init__(self, metadata: dict) -> None:
         self.batch = None
         self.metadata = metadata
@@ -966,7 +1066,7 @@ _HIST_STUBS = _STUBS + [
 ]
 
 
-class _HistResult:
+class _HistResult(_Fake):
     def __init__(self, producer: bool) -> None:
         self.call_state = None
         self.output_schema = _EXCHANGE_SCHEMA
@@ -975,7 +1075,7 @@ class _HistResult:
         self.header = None
 
 
-class _HistImpl:
+class _HistImpl(_Fake):
     def __init__(self, producer: bool, init_fails: bool) -> None:
         self._producer, self._init_fails = producer, init_fails
 
@@ -985,11 +1085,11 @@ class _HistImpl:
         return _HistResult(self._producer)
 
 
-class _StreamMethodType:
+class _StreamMethodType(_Fake):
     value = "stream"
 
 
-class _HistInfo:
+class _HistInfo(_Fake):
     name = "gen"
     method_type = _StreamMethodType()
     param_types: dict = {}
@@ -998,7 +1098,7 @@ class _HistInfo:
     header_type = None
 
 
-class _HistServer:
+class _HistServer(_Fake):
     server_id = "srv1"
     protocol_name = "Proto"
     server_version = "1.0"
@@ -1015,7 +1115,7 @@ class _HistServer:
         self.methods = {"gen": _HistInfo()}
 
 
-class _HistApp:
+class _HistApp(_Fake):
     """One HTTP worker: its own real call-state cache, the shared token key."""
 
     _token_key = b"k" * 32
@@ -1038,11 +1138,18 @@ def _collect_new_records() -> list:
 def _replay_history(args: dict) -> str | None:
     """Un-stubbed: real app(s) behind the falcon test client; a producer stream forced into continuations by a small
     response cap; the continuation worker's call-state cache misses when the counterexample's does."""
-    miss = bool(args.get("other_worker")) or bool(args.get("no_cache")) or (args.get("ttl", 1) > 0 and args.get("dt", 0) >= args.get("ttl", 1))
-    cancel = args.get("kind") == 2
-    fail = args.get("kind") == 1
-    recs, seen = _real_run("http", False, "stream", fail, "turn failed", cancel, cache_miss=miss)
-    return _judge_real("http", "stream", fail, "turn failed", cancel, recs, seen, " (continuation served from %s)" % ("the echoed call token: call-state cache miss" if miss else "the call-state cache"))
+    ttl = args.get("ttl", 1)
+    miss = bool(args.get("other_worker")) or bool(args.get("no_cache")) or (ttl > 0 and args.get("dt", 0) >= ttl)
+    init_fails, producer = bool(args.get("init_fails")), bool(args.get("producer", True))
+    cancel = args.get("kind") == 2 and not init_fails
+    fail = args.get("kind") == 1 or init_fails
+    msg = "init failed" if init_fails else "turn failed"
+    # the token ttl is passed through when the clock advance stays inside it (the replay cannot advance the real clock;
+    # an advance past the ttl is replayed as what it means for the history: a call-state cache miss)
+    token_ttl = ttl if (ttl == 0 or args.get("dt", 0) < ttl) else None
+    recs, seen = _real_run("http", False, "stream", fail, msg, cancel, cache_miss=miss, init_fails=init_fails, producer=producer, token_ttl=token_ttl)
+    note = " (%s stream; %s)" % ("producer" if producer else "exchange", "init fails" if init_fails else "continuation served from " + ("the echoed call token: call-state cache miss" if miss else "the call-state cache"))
+    return _judge_real("http", "stream", fail, msg, cancel, recs, seen, note)
 
 
 @cond(q=60, t=180, stubs=_HIST_STUBS, replay=_replay_history, signature=lambda args, conc: "C34:http-stream-record-stream-id",
@@ -1069,10 +1176,10 @@ def http_stream_records_share_stream_id(init_fails: bool, producer: bool, kind: 
         init_raised = False
         try:
             _hist_init(worker_a, "gen", _HistInfo(), object())
-        except _RpcHttpError:
-            init_raised = True
+        except HarnessModelError:
+            raise
         except Exception:  # noqa: BLE001
-            return False
+            init_raised = True  # whatever its class: the client observes a failed init
         first = _collect_new_records()
         if len(first) != 1 or not _VALID(first[0]) or first[0]["method_type"] != "stream":
             return False
